@@ -105,6 +105,7 @@ def run_breadlog(config_path, check=False, cwd=None, env=None, tmpdir=None, time
         e["FSX_ROOTS"] = ":".join(shim["roots"])
         e["FSX_PLAN"] = shim.get("plan", "")
         e["FSX_STICKY_PATH_PREFIX"] = shim.get("sticky_prefix", "")
+        e["FSX_XDEV_PARENT"] = shim.get("xdev_parent", "")
         open(shim["log"], "wb").close()
     cmd = list(wrapper) + [binary or BIN, "-c", config_path]
     if check:
